@@ -1370,6 +1370,35 @@ def make_undef_ref_in(ctx):
     return m
 
 
+def m_missing_super_after_good(s, rng):
+    """the offending subtype stands AFTER a subtype that does list the supertype (the `found` flag of
+    ENTITYcheck_missing_supertypes is per subtype): p SUPERTYPE OF (ONEOF (good…, x)) with x not naming p"""
+    ents = s.entities()
+    hosts = [p for p in ents if subs_flat(p.subs_expr)]
+    if not hosts:
+        # make one: a supertype with a real subtype that it now lists explicitly
+        pairs = [(p, x) for p in ents for x in ents if p.name in x.supers]
+        if not pairs:
+            return None
+        p, x0 = rng.choice(pairs)
+        p.subs_expr = ("ONEOF", [x0.name])
+        hosts = [p]
+    p = rng.choice(hosts)
+    others = [x for x in ents if x is not p and p.name not in x.supers and x.name not in _ancestors(s, p)
+              and x.name not in subs_flat(p.subs_expr)]
+    if not others:
+        return None
+    x = rng.choice(others)
+    if isinstance(p.subs_expr, str):
+        p.subs_expr = ("ONEOF", [p.subs_expr, x.name])
+    else:
+        p.subs_expr[1].append(x.name)
+    return Fault("missing-supertype", s, [("MISSING_SUPERTYPE", [p.name, x.name])],
+                 note=f"{x.name} is listed after {subs_flat(p.subs_expr)[0]}, which does name {p.name}")
+
+
+MUTATORS["missing_super_after_good"] = m_missing_super_after_good
+
 for _c in EXPR_CONTEXTS:
     MUTATORS[f"undef_func_in_{_c}"] = make_undef_func_in(_c)
     MUTATORS[f"undef_ref_in_{_c}"] = make_undef_ref_in(_c)
